@@ -283,6 +283,14 @@ class EngineBase:
             return self.truth(t)
         if t.sort == OBJ and sort != NONE:
             return self.unbox(t, sort)
+        if isinstance(sort, tuple) and sort[0] == "Seq" and isinstance(t.sort, tuple) and t.sort == ("Seq", ("Opt", sort[1])):
+            # List[Optional[X]] used as List[X] (cast / filtered comprehension): same length, same entries wherever they are not None
+            r = self.ctx.fresh(sort, "unopt_seq")
+            m = mangle(sort[1])
+            self.ctx.axioms.append(f"(= (seq.len {r.s}) (seq.len {t.s}))")
+            self.ctx.axioms.append(f"(forall ((|q_us| Int)) (! (=> (and (>= |q_us| 0) (< |q_us| (seq.len {t.s})) ((_ is Some_{m}) (seq.nth {t.s} |q_us|))) "
+                                   f"(= (seq.nth {r.s} |q_us|) (val_{m} (seq.nth {t.s} |q_us|)))) :pattern ((seq.nth {r.s} |q_us|)) :pattern ((seq.nth {t.s} |q_us|))))")
+            return r
         self.note("havoc-coerce", f"{what}: {t.sort} -> {sort}")
         return self.opaque("coerced", sort)
 
